@@ -1058,6 +1058,9 @@ func r17MergeFields(c *RuleCtx, mf *ssa.Function) {
 	for _, b := range falseFrom {
 		for _, d := range deps[b] {
 			cond := branchCond(d.Branch)
+			if ph, ok := cond.(*ssa.Phi); ok && web[ph] {
+				continue // `if fieldsSame && ...`: testing the flag itself restricts nothing that matters
+			}
 			bo, ok := cond.(*ssa.BinOp)
 			if !ok {
 				if call, ok := cond.(*ssa.Call); ok && len(call.Call.Args) == 2 && isList(call.Call.Args[0], 0) && isList(call.Call.Args[1], 0) {
